@@ -17,6 +17,7 @@ Dispatch ==
     [] Ev.e = "Env"        -> Env(Ev.args[1], Ev.args[2]) /\ UNCHANGED moved
     [] Ev.e = "Metavar"    -> Metavar(Ev.args[1], Ev.args[2]) /\ UNCHANGED moved
     [] Ev.e = "MoveParser" -> MoveParser
+    [] Ev.e = "MoveAssignParser" -> MoveAssignParser
     [] Ev.e = "TryParse"   -> TryParse /\ UNCHANGED moved
     [] OTHER -> FALSE
 
